@@ -79,6 +79,30 @@ def _scene_origin(rng: random.Random) -> Tuple[List[Fraction], str]:
     return [Fraction(0)] * 3, ""
 
 
+# the 12 edges of the hexahedron (blockMesh numbering), for collapsing
+HEX_EDGES = [(0, 1), (1, 2), (2, 3), (3, 0), (4, 5), (5, 6), (6, 7), (7, 4), (0, 4), (1, 5), (2, 6), (3, 7)]
+
+
+def _collapse(rng: random.Random, pts: List[List[Fraction]]) -> List[List[Fraction]]:
+    """Collapsed block (prism / wedge / pyramid, which blockMesh supports): one or two edges of the hexahedron are
+    shrunk to a point, i.e. corners of ONE operation coincide (identically or up to a jitter inside the tolerance)."""
+    pts = [list(p) for p in pts]
+    kind = rng.random()
+    if kind < 0.5:
+        edges = [rng.choice(HEX_EDGES)]
+    elif kind < 0.85:
+        # a prism: two opposite edges of one face, e.g. 4=5 and 7=6
+        edges = rng.choice([[(4, 5), (7, 6)], [(0, 1), (3, 2)], [(0, 4), (1, 5)], [(1, 2), (5, 6)], [(3, 7), (2, 6)]])
+    else:
+        # a pyramid: the whole top face is one point
+        edges = [(4, 5), (4, 6), (4, 7)]
+    for a, b in edges:
+        if rng.random() < 0.5:
+            a, b = b, a
+        pts[b] = [c + j for c, j in zip(pts[a], _jit(rng))]
+    return pts
+
+
 def gen_chain(rng: random.Random) -> dict:
     """A column of 2..4 cells built the usual way: every next operation is created on the top Face *object* of the
     previous one (shared Point objects, shared patch name of that face), plus 0..2 free-standing neighbours; sides carry
@@ -118,6 +142,8 @@ def gen_asm(rng: random.Random, n_ops: Optional[int] = None) -> dict:
     # 15%: a geo-referenced scene (UTM-like coordinates): neighbouring nodes are 1 apart at |x| ~ 5e5, |y| ~ 4.2e6,
     # i.e. much closer than 1e-5 * |coordinate| (a relative tolerance would merge them), still >= 1e7 TOL apart
     origin, tag = _scene_origin(rng)
+    # 25% of the scenes contain collapsed blocks (coincident corners inside one operation)
+    collapsed_scene = rng.random() < 0.25
     dims = rng.choice([(2, 1, 1), (2, 2, 1), (3, 1, 1), (2, 2, 2), (3, 2, 1)])
     cells = [(i, j, k) for i in range(dims[0]) for j in range(dims[1]) for k in range(dims[2])]
     rng.shuffle(cells)
@@ -135,8 +161,11 @@ def gen_asm(rng: random.Random, n_ops: Optional[int] = None) -> dict:
         shift = [Fraction(0)] * 3
         if rng.random() < 0.15:
             shift[rng.randrange(3)] = Fraction(rng.choice([-1, 1]), 10**5)
+        collapsed = collapsed_scene and rng.random() < 0.5
+        if collapsed:
+            pts = _collapse(rng, pts)
         # the float64 nearest to origin + offset is what the implementation sees; keep it exactly
-        pts = [[Fraction(float(c + s + j + o)) for c, s, j, o in zip(p, shift, _jit(rng), origin)] for p in pts]
+        pts = [[Fraction(float(c + s + j + o)) for c, s, j, o in zip(p, shift, ([Fraction(0)] * 3 if collapsed else _jit(rng)), origin)] for p in pts]
         patches: Dict[str, str] = {}
         for side in SIDES:
             if rng.random() < 0.45:
@@ -146,7 +175,7 @@ def gen_asm(rng: random.Random, n_ops: Optional[int] = None) -> dict:
     for _ in range(rng.choice([0, 1, 1, 2, 2, 3])):
         m, s = rng.sample(names, 2)
         merged.append([m, s])
-    return {"kind": "asm", "ops": ops, "merged": merged, "far": tag == "far", "tag": tag}
+    return {"kind": "asm", "ops": ops, "merged": merged, "far": tag == "far", "tag": tag, "collapsed": collapsed_scene}
 
 
 def gen_hist(rng: random.Random) -> dict:
@@ -244,6 +273,8 @@ class C05(core.Check):
     props_module = "CBV.Props.C05"
     workers = 1
     rule = (
+        "25% of the asm scenes contain collapsed blocks (an edge, two opposite edges of a face or the whole top face shrunk "
+        "to a point: coincident corners inside one operation). "
         "chain: columns of 2..4 cells where every next operation is built on the top Face object of the previous one "
         "(shared Point objects) plus free neighbours, slave names on the sides; 25% of all scenes shifted so that nodes sit at "
         "odd multiples of TOL/2 (coincident corners straddle the boundaries of a TOL-sized grid). "
@@ -644,6 +675,8 @@ class C05(core.Check):
             return case["kind"] + (":" + case["what"] if "what" in case else "")
         nd = sum(1 for d in impl.get("D", []) if d[1])
         multi = sum(1 for d in impl.get("D", []) if len(d[1]) > 1)
+        if case.get("collapsed"):
+            return "asm:collapsed-blocks" + (":" + case["tag"] if case.get("tag") else "")
         if case.get("chain"):
             return "asm:chain-on-shared-faces" + (":" + case["tag"] if case.get("tag") else "")
         if case.get("far"):
